@@ -871,7 +871,9 @@ def write_cache_entry(
             entry.mode,
             entry.uid,
             entry.gid,
-            entry.size,
+            # The size field is 32 bits wide; like git, store the low bits of
+            # the size of files of 4 GiB or more.
+            entry.size & 0xFFFFFFFF,
             hex_to_sha(entry.sha),
             flags,
         )
